@@ -13,6 +13,7 @@ import SlocModel.Driver.Gate
 import SlocModel.Driver.Report
 import SlocModel.Driver.PathSpelling
 import SlocModel.Driver.Check
+import SlocModel.Driver.Concurrency
 open SlocModel.Driver
 
 def dispatch (line : String) : String :=
@@ -61,6 +62,7 @@ def dispatch (line : String) : String :=
       | "target" => handleTarget args
       | "match-key" => handleMatchKey args
       | "check-run" => handleCheckRun args
+      | "conc-append" => handleConcAppend args
       | _ => some "bad-op"
     r.getD "bad-args"
   | [] => "bad-op"
